@@ -98,6 +98,13 @@ CHECKS = {
         "Model families listed in the evidence; tolerance 1e-10 for the in-memory route because the restarted time grid may differ in the last bit.",
         "5/C10",
     ),
+    "C13": (
+        "model_checking",
+        "bounded exhaustive enumeration of program-carrying models x instructions x dt on the real simulator; reports and targeted parameter values recomputed at every time index from the spec, the result's stocks and the reference program algebra",
+        "Every combination of targeted-parameter unit, number of programs, populations, targeted compartments, instruction kind and step size is simulated; at every time index the reported spending, capacity, eligible, fraction and number are recomputed independently, every targeted parameter is compared with the documented outcome at the reported coverage (converted and clipped), untargeted parameters with the program-free run, and the report functions are checked to be repeatable and side-effect free.",
+        "Reference formulas in mc/refprog.py; junction and transfer targets outside the alphabet.",
+        "5/C13",
+    ),
 }
 
 PENDING_REASON = "check not built yet in this session (see DESIGN.md section 8 for the build order); no claim is made"
